@@ -30,14 +30,16 @@ inductive BinOp where
   deriving DecidableEq, Repr, Inhabited
 
 /-- Expression trees as pycparser builds them (`c_ast.Constant`, `UnaryOp`, `ID`,
-`BinaryOp`); every other node kind (casts, `sizeof`, `~`, `!`, comparisons, `?:` …) is
-`unsupported`. -/
+`BinaryOp`).  A `BinaryOp` with an operator outside the ten (`<`, `==`, `&&`, `||` …) is
+`binOther`: both operands are evaluated before the operator is looked at, so their errors win.
+Every other node kind (casts, `sizeof`, `~`, `!`, `?:` …) is `unsupported`. -/
 inductive Expr where
   | const (tok : List Char)
   | pos (e : Expr)
   | neg (e : Expr)
   | ref (name : String)
   | bin (op : BinOp) (l r : Expr)
+  | binOther (l r : Expr)
   | unsupported
   deriving Repr, Inhabited
 
@@ -181,6 +183,10 @@ def eval (env : Env) : Expr → Except Err Int
     let a ← eval env l
     let b ← eval env r
     applyBin op a b
+  | .binOther l r => do
+    let _ ← eval env l
+    let _ ← eval env r
+    .error .ffi                      -- no branch matches: falls through to the final `raise FFIError`
   | .unsupported => .error .ffi
 
 /-! ### `_add_integer_constant`: `#define NAME literal`, `static const int NAME = literal;` -/
